@@ -319,7 +319,13 @@ namespace Pistache::Rest
         }
         else
         { // current leaf requested, or empty final optional
-            if (!optional_.empty())
+            if (route_ != nullptr)
+            {
+                // a route registered for exactly this path wins over a
+                // trailing optional parameter that is absent
+                return std::make_tuple(route_, std::move(params), std::move(splats));
+            }
+            else if (!optional_.empty())
             {
                 // in case of more than one optional at this point, as it is an
                 // ambiguity, it is resolved by using the first optional
